@@ -230,4 +230,54 @@ theorem rewriteString_words_counterexample :
       refinesWords (words "aaaaaaaaaaaa,bbbbbbbbbbbb cc".toList) (commentWords "// ".toList r) = true :=
   ⟨"aaaaaaaaaaaa,\n// bbbbbbbbbbbb cc".toList, by decide +kernel, by decide +kernel, by decide +kernel⟩
 
+/-! ## C02 / C07: the lines fit -/
+
+/-- **Every line `break_string` returns fits into `max_width`, its trailing white space apart — or the
+input cannot be broken before the limit**: a URL (or alike) is detected at the limit, or no boundary (white
+space, or punctuation that is not part of `::` and is not a backslash) lies between `MIN_STRING` and the
+limit.  For every text, width, `trim_end` and `line_end`. -/
+theorem breakString_fits (maxWidth : Nat) (trimEnd : Bool) (lineEnd input line : List Char) (len : Nat)
+    (h : breakString maxWidth trimEnd lineEnd input = .lineEnd line len ∨
+         breakString maxWidth trimEnd lineEnd input = .endWithLineFeed line len) :
+    width (trimEndWs line) ≤ maxWidth ∨ Unbreakable maxWidth input :=
+  breakString_line_fits maxWidth trimEnd lineEnd input line len h
+
+/-- non-vacuity, first alternative: the unit test `should_break_on_whitespace` -/
+example : breakString 20 false [] "Placerat felis. Mauris porta ante sagittis purus.".toList
+      = .lineEnd "Placerat felis. ".toList 16 ∧ width (trimEndWs "Placerat felis. ".toList) ≤ 20 := by decide
+
+/-- …and the second alternative is needed: the unit test `should_break_forward` returns a line of 28
+columns for `max_width = 20` (no boundary between `MIN_STRING` and the limit). -/
+theorem breakString_fits_counterexample :
+    breakString 20 true [] "Venenatis_tellus_vel_tellus. Aliquam aliquam dolor at justo.".toList
+      = .lineEnd "Venenatis_tellus_vel_tellus.".toList 29 ∧
+    ¬ width (trimEndWs "Venenatis_tellus_vel_tellus.".toList) ≤ 20 := by decide
+
+/-- **What `rewrite_string` returns has passed `wrap_str`**: after `filter_normal_code`, the first line is
+at most `shape.width` wide, every other line at most `max_width`, and the last one at most
+`shape.used_width() + shape.width` (`filtered_str_fits`, utils.rs:397). -/
+theorem rewriteString_fits (orig : List Char) (f : Fmt) (newlineMax : Nat) (r : List Char)
+    (h : rewriteString orig f newlineMax = .ok (some r)) :
+    filteredStrFits r f.config.max_width f.shape = true := by
+  unfold rewriteString at h
+  cases h1 : f.maxWidthWithIndent with
+  | none => simp [h1] at h
+  | some mwWith =>
+    cases h2 : f.maxWidthWithoutIndent with
+    | none => simp [h1, h2] at h
+    | some mwWithout =>
+      cases h3 : f.loopCfg newlineMax mwWith mwWithout with
+      | error e => simp [h1, h2, h3] at h
+      | ok k =>
+        cases h4 : rewriteRaw k f.opener f.closer orig with
+        | none => simp [h1, h2, h3, h4] at h
+        | some raw =>
+          simp only [h1, h2, h3, h4] at h
+          split at h
+          · rename_i hfit
+            simp only [Except.ok.injEq, Option.some.injEq] at h
+            subst h
+            exact hfit
+          · simp at h
+
 end RF.Props.StringFmt
